@@ -466,6 +466,21 @@ EDITS = {"trail_comment": trail_comment, "trail_space": trail_space, "trail_mult
          "qty_comment": qty_comment, "extra_lines": extra_lines}
 PROBES = {"probe_brace": ("after", "probe_brace"), "probe_value_spaced": ("blank", "probe_value_spaced")}
 
+# ------------------------------------------------------------------ text mode
+# `>> [mode]: text` / `>> [define]: text` (MODES extension): every block below is a paragraph and a component is kept
+# as written (event_consumer.rs in_text), so edit points inside a component - between the words of its name, alias or
+# note, at a line end inside a component that wraps - now lie inside paragraph text.
+TEXT_MODE_LINES = [">> [mode]: text\n", ">> [define]: text\n", ">>   [mode]  :   text  \n"]
+# qty_comment may put a blank where there was none (`{ [-c-] 1}`): inside kept source text that is a difference in
+# blank space the statement does not allow for, and not a comment "between words"
+TEXT_MODE_SKIP = ("qty_comment",)
+
+
+def text_mode_variant(text, rng):
+    """the same source read in text mode: the mode line goes to the top of the Cooklang part"""
+    body_start, _ = split_frontmatter(text)
+    return text[:body_start] + rng.choice(TEXT_MODE_LINES) + text[body_start:]
+
 
 def probe(text, P, rng, name):
     how, cat = PROBES[name]
@@ -477,10 +492,18 @@ def probe(text, P, rng, name):
 # ------------------------------------------------------------------ the relation on results
 
 _WS = re.compile(r"[ \t]+")
+# paragraph text: line ends count as blank space too.  A paragraph built from Text events never holds one (a line
+# break inside a block is rendered as a blank); in text mode (`>> [mode]: text`) the source of a component is kept
+# as written, and a component may wrap: "@sea\nsalt{}" / "@sea\r\nsalt{}" / "@sea -- c\nsalt{}"
+_WS_NL = re.compile(r"[ \t\r\n]+")
 
 
 def _collapse(s):
     return _WS.sub(" ", s)
+
+
+def _collapse_nl(s):
+    return _WS_NL.sub(" ", s)
 
 
 def normalise(recipe):
@@ -489,13 +512,17 @@ def normalise(recipe):
     start/end of a step trimmed, text items that become empty dropped)"""
     if recipe is None:
         return None
+    if not isinstance(recipe, dict):
+        # harness/src/bin/recipe.rs prints "unserializable" when serde_json refuses the recipe (a front matter with a
+        # non-string key, DESIGN.md 12.4): compared as it is
+        return recipe
     out = dict(recipe)
     secs = []
     for s in recipe["sections"]:
         content = []
         for b in s["content"]:
             if b["type"] == "text":
-                content.append({"type": "text", "value": _collapse(b["value"]).strip(" ")})
+                content.append({"type": "text", "value": _collapse_nl(b["value"]).strip(" ")})
             else:
                 items = []
                 for it in b["value"]["items"]:
